@@ -210,6 +210,14 @@ def rstmts(ss, ind, style):
             out.append(f'{pad}associate ({pairs})')
             out += rstmts(s['body'], ind + 2, style)
             out.append(f'{pad}end associate')
+        elif k == 'where':    # WHERE / ELSEWHERE construct (machine: spec/FMachineLog.tla only)
+            for i, (c, b) in enumerate(zip(s['conds'], s['bodies'])):
+                out.append(f"{pad}{'where' if i == 0 else 'elsewhere'} ({rx(c)})")
+                out += rstmts(b, ind + 2, style)
+            if s['els']:
+                out.append(f'{pad}elsewhere')
+                out += rstmts(s['els'], ind + 2, style)
+            out.append(f'{pad}end where')
         elif k in ('exit', 'cycle', 'return'):
             out.append(pad + k)
         elif k == 'nop':
@@ -239,7 +247,12 @@ def render_unit(u, prog, ind=2, style=None):
     return lines
 
 
+RENDERERS = {}     # prog['renderer'] -> function(prog) -> text: module layouts owned by lib_fm_<topic> modules
+
+
 def render(prog, modname='kmod', style=None):
+    if prog.get('renderer'):
+        return RENDERERS[prog['renderer']](prog)
     lines = [f'module {modname}', '  implicit none', '  integer, parameter :: jprb = selected_real_kind(13, 300)', 'contains']
     for u in prog['units']:
         if not u['host']:
